@@ -33,7 +33,8 @@ namespace {
 enum Hook { K_INIT = 0, K_START, K_STOP, K_CLEANUP };
 static const char *HN[] = {"onInit", "onStart", "onStop", "onCleanup"};
 
-// ops:  node <parent (-1 root)> <required> <named> <fail_init> <fail_start> <how (0 add, 1 addAs with its own name, 2 addAs with a new name)>
+// ops:  node <parent (-1 root)> <required> <named> <fail_init> <fail_start> <how (0 add, 1 addAs with its own name, 2 addAs with a new name)> <nocfg>
+//       (nocfg, part 0: the module's node is removed from the configuration after fillDefaultConfig(), as a user configuration with "name": null does)
 //       readd <child> <other parent>     one more add() of a module that already has a parent (must be refused: the structure stays a tree)
 //       (node 0 is the root; parents precede children)
 //       call <0 initialize,1 start,2 stop,3 cleanup>                              (part 0 only)
@@ -50,7 +51,7 @@ void generate(sim::Rng &r, uint64_t seed, const std::string &tier, sim::Plan &p)
     long parent = -1;
     if (i > 0) { do { parent = (long)r.below((uint64_t)i); } while (depth[(size_t)parent] >= 3); }
     depth.push_back(i == 0 ? 0 : depth[(size_t)parent] + 1);
-    op.a = {parent, r.chance(650) ? 1 : 0, r.chance(700) ? 1 : 0, (i > 0 || r.chance(300)) && r.chance(fail_rate) ? 1 : 0, r.chance(fail_rate) ? 1 : 0, r.chance(700) ? 0 : r.range(1, 2)};
+    op.a = {parent, r.chance(650) ? 1 : 0, r.chance(700) ? 1 : 0, (i > 0 || r.chance(300)) && r.chance(fail_rate) ? 1 : 0, r.chance(fail_rate) ? 1 : 0, r.chance(700) ? 0 : r.range(1, 2), (i > 0 && part == 0 && r.chance(60)) ? 1 : 0};
     p.ops.push_back(op);
   }
   if (n >= 3 && r.chance(200)) { sim::Op op; op.kind = "readd"; op.a = {r.range(1, n - 1), (long)r.below((uint64_t)n)}; p.ops.push_back(op); }
@@ -72,7 +73,7 @@ void generate(sim::Rng &r, uint64_t seed, const std::string &tier, sim::Plan &p)
 struct Ev { int hook; int node; bool ok; int tid; bool loop_running; };
 std::vector<Ev> g_trace;
 
-struct NodeSpec { int parent = -1; bool required = true, named = true, fail_init = false, fail_start = false; int how = 0; std::vector<int> children; };
+struct NodeSpec { int parent = -1; bool required = true, named = true, fail_init = false, fail_start = false, nocfg = false; int how = 0; std::vector<int> children; };
 std::vector<std::pair<int, int>> g_readd;
 std::vector<NodeSpec> g_spec;
 
@@ -127,6 +128,7 @@ class Probe : public Module {
 // returns overall success; `attempted` in order; `succeeded` = nodes whose hook returned success
 bool expect_pass(int n, bool init_pass, const std::set<int> &eligible, std::vector<int> &attempted, std::set<int> &succeeded) {
   if (!eligible.count(n)) return false;
+  if (init_pass && g_spec[(size_t)n].nocfg) return false;      // no configuration node: refused before its onInit
   attempted.push_back(n);
   bool fail = init_pass ? g_spec[(size_t)n].fail_init : g_spec[(size_t)n].fail_start;
   if (fail) return false;
@@ -142,6 +144,7 @@ bool expect_pass(int n, bool init_pass, const std::set<int> &eligible, std::vect
 void down_subtree(int n, std::set<int> &up) { up.erase(n); for (int c : g_spec[(size_t)n].children) down_subtree(c, up); }
 bool up_pass(int n, bool init_pass, const std::set<int> &eligible, std::set<int> &up) {
   if (!eligible.count(n)) return false;
+  if (init_pass && g_spec[(size_t)n].nocfg) return false;
   if (init_pass ? g_spec[(size_t)n].fail_init : g_spec[(size_t)n].fail_start) return false;
   up.insert(n);
   const std::vector<int> &ch = g_spec[(size_t)n].children;
@@ -209,7 +212,7 @@ void load_spec(const sim::Plan &plan) {
     if (op.kind != "node" || g_spec.size() >= 16) continue;
     NodeSpec s; int id = (int)g_spec.size();
     s.parent = id == 0 ? -1 : (int)(((op.arg(0) % id) + id) % id);
-    s.required = op.arg(1) != 0; s.named = op.arg(2) != 0; s.fail_init = op.arg(3) != 0; s.fail_start = op.arg(4) != 0; s.how = (int)(((op.arg(5) % 3) + 3) % 3);
+    s.required = op.arg(1) != 0; s.named = op.arg(2) != 0; s.fail_init = op.arg(3) != 0; s.fail_start = op.arg(4) != 0; s.how = (int)(((op.arg(5) % 3) + 3) % 3); s.nocfg = id > 0 && op.arg(6) != 0 && plan.get("part") == 0;
     g_spec.push_back(s);
     if (id > 0) g_spec[(size_t)s.parent].children.push_back(id);
   }
@@ -217,6 +220,7 @@ void load_spec(const sim::Plan &plan) {
   // unnamed siblings would collide on the empty name: at most one unnamed child per parent
   std::map<int, int> unnamed_seen;
   for (size_t i = 1; i < g_spec.size(); ++i) if (!g_spec[i].named && unnamed_seen[g_spec[i].parent]++) g_spec[i].named = true;
+  for (size_t i = 1; i < g_spec.size(); ++i) if (!g_spec[i].named && g_spec[i].how != 2) g_spec[i].nocfg = false;   // an unnamed module has no node of its own
 }
 
 // builds the probe tree; returns the probe of node 0 (which owns the others once they are added)
@@ -251,6 +255,17 @@ void execute_calls(const sim::Plan &plan) {
   if (sim::violation_count()) return;
   Json js;
   root->fillDefaultConfig(js);
+  // remove configuration nodes: walk from the root through the named ancestors to the parent's object
+  for (size_t i = 1; i < g_spec.size(); ++i) {
+    if (!g_spec[i].nocfg) continue;
+    auto name_of = [](size_t k) { return g_spec[k].how == 2 ? "r" + std::to_string(k) : (g_spec[k].named ? "m" + std::to_string(k) : std::string()); };
+    std::vector<std::string> path;
+    for (int a = g_spec[i].parent; a > 0; a = g_spec[(size_t)a].parent) { std::string nm = name_of((size_t)a); if (!nm.empty()) path.insert(path.begin(), nm); }
+    Json *j = &js; bool ok = true;
+    for (auto &nm : path) { if (!j->is_object() || !j->contains(nm)) { ok = false; break; } j = &(*j)[nm]; }
+    if (ok && j->is_object() && j->contains(name_of(i))) { j->erase(name_of(i)); sim::probe("config_nodes_removed"); }
+    else g_spec[i].nocfg = false;      // (an ancestor's node is gone already)
+  }
 
   std::set<int> all; for (size_t i = 0; i < g_spec.size(); ++i) all.insert((int)i);
   Oracle O;
